@@ -284,6 +284,7 @@ class HResult:
         self.wall_s = 0.0
         self.pin_chains_cut = 0
         self.cvc5_queries = 0
+        self.seq_probes = []      # [previous witness, witness of an aborted run]: replayed in sequence by the driver
 
     def to_dict(self):
         d = dict(self.__dict__)
@@ -309,6 +310,7 @@ def explore(h, known=None, collect_validation=2, profile_root=None):
     seen = set()
     t_start = time.time()
     first = True
+    prev_w = None
     while work:
         if res.paths >= h.max_paths or time.time() - t_start > h.max_seconds:
             res.budget_exhausted = True
@@ -337,10 +339,24 @@ def explore(h, known=None, collect_validation=2, profile_root=None):
             res.aborted += 1
             res.errors.append(f"engine abort on {vals}: {ex}")
             obligations = None
+            # a run that contradicts its own model usually means the code under test kept state from an earlier run
+            # (a value-keyed cache ...): hand the pair (previous inputs, these inputs) to the clean-interpreter replay
+            if prev_w is not None and len(res.seq_probes) < 3:
+                try:
+                    w2 = h.witness(vals)
+                except Exception:  # noqa: BLE001
+                    w2 = None
+                if w2 is not None:
+                    res.seq_probes.append({"check": "__sequence__", "args": {"steps": [prev_w, w2]}})
         finally:
             if first and profile_root:
                 sys.setprofile(None)
         first = False
+        if obligations is not None:
+            try:
+                prev_w = h.witness(vals)
+            except Exception:  # noqa: BLE001
+                prev_w = None
         path = list(CTX.path)
         for k, v in CTX.pins.items():
             res.pins[k] = res.pins.get(k, 0) + v
